@@ -51,4 +51,14 @@ CHECKS = {
         note=COMMON_NOTE,
         technique="TLA+ operator semantics + TLC BFS case enumeration, replayed into operator API and Model.Run; defect models for known findings",
         design_ref="DESIGN.md section 6 (C08)"),
+    "C15": dict(
+        text="Complete enumeration of the finite space the property quantifies over: TLC loads the arity/type table extracted from the real "
+             "operators, checks it against Gate.tla and enumerates every (operator, input count, dtype per position, nil per optional "
+             "position) combination with its accept/error outcome; the harness calls ValidateInputs for each (no panic, padded length, "
+             "identical tensor objects in order, inputs untouched). Registry.tla is a state machine of lookup/Init/Apply whose every "
+             "behaviour up to 5 steps is replayed (fresh instance per lookup, own attribute state); with SingletonInstances TLC produces "
+             "the counterexample (anti-vacuity). Unregistered names must give the unsupported-operator error.",
+        note=COMMON_NOTE + " exhaustive: true for the gate space.",
+        technique="TLA+ Gate/Registry state machine, TLC complete enumeration replayed into ValidateInputs/GetOperator",
+        design_ref="DESIGN.md section 6 (C15)"),
 }
